@@ -34,8 +34,6 @@ KERNELS = {
     "apply_indices_to_index_values": {"owner": "C09"},
     "map_valid": {"owner": "C04"},
     "ordered_map_valid_partial": {"owner": "C04", "mutated": [5]},   # result_data is written in place
-    # translated and executed against the real kernels; no refinement theorem yet (they exercise `break`, a `while` whose
-    # guard subscripts, and the read of a possibly unbound local)
     "next_map_subchunk": {"owner": "C04"},
     "get_valid_value_extents": {"owner": "C04"},
     "generate_ordered_map_to_left_both_unique_partial": {"owner": "C03", "mutated": [2]},
